@@ -23,13 +23,11 @@ EXPLANATION = (
     "to the consumer; (WRAP) Take/Enumerate/Map/Limit consumers return the inner send/progress/flush result unchanged (Take may only "
     "replace it by Break). In-flight futures are owned by the consumer inside the operation's own future (C02.OWN), hence dropped "
     "no later than it.")
-EXPLANATION += (' (GROUP) premise re-checked here: the FutureGroup holding the work futures registers every pushed future completely, polls every armed member, yields each result exactly once and reports None only when empty.')
 ASSUMPTIONS = [
     "futures_buffered::FuturesUnordered yields every completed future's output exactly once",
     "Try::branch / from_residual / from_output of the user's result type behave per core::ops::Try",
 ]
 RULES = {
-    "C14.GROUP": "premise: the FutureGroup holding the work futures registers every pushed future, polls every armed member, yields each result exactly once and None only when empty",
     "C14.BRANCH": "every Some(res) from group.next() is branched; Break(r) => residual := Some(r) + ConsumerState::Break (send, progress) / from_residual(r) (flush); Continue => loop goes on",
     "C14.FLUSH": "flush returns the stored residual first; from_output(()) only after group.next() yielded None",
     "C14.WORK": "send pushes the item future once unless Break; work future calls the closure once and resolves to the closure future's value",
@@ -46,9 +44,6 @@ def run(ctx):
     for cfg in ctx.configs:
         ctx.current_config = cfg
         M = ctx.model(cfg)
-        from . import c11 as _c11
-        _c11.premises(ctx, M, "C14.GROUP")
-        ctx.floor("C14.GROUP", cfg, 40)
         rule_branch(ctx, M)
         rule_work(ctx, M)
         rule_stop(ctx, M)
